@@ -186,8 +186,10 @@ theorem insertInLeaf_tree (H : Bytes → Bytes) (hH : ∀ m, (H m).length = 32) 
       have hgetb : (p1.modify b (fun x => { x with mbh := mustBeHashed c.ver value, val := some value })).get b =
           { p1.get b with mbh := mustBeHashed c.ver value, val := some value } := by
         rw [Heap.get_modify, if_pos ⟨rfl, hpp.lt⟩]
-      refine ⟨out_leaf ((hpp.fr.mono (sa_wr hfa)).trans (FR.modify p1 b _ hwb)) (by simpa using hpp.lt)
-        ?_ ?_ ?_ ?_ ?_ ?_ hwb, fun hf => Bool.noConfusion hf⟩
+      refine ⟨?_, fun hf => Bool.noConfusion hf⟩
+      dsimp only
+      refine out_leaf ((hpp.fr.mono (sa_wr hfa)).trans (FR.modify p1 b _ hwb)) (by simpa using hpp.lt)
+        ?_ ?_ ?_ ?_ ?_ ?_ hwb
       · rw [hgetb]; exact hpp.isBranch.trans hb
       · rw [hgetb]; exact hpp.pk.trans hpk
       · rw [hgetb]
@@ -213,18 +215,21 @@ theorem insertInLeaf_tree (H : Bytes → Bytes) (hH : ∀ m, (H m).length = 32) 
               { p1.get b with pk := rest } := fun n => by
             rw [Heap.get_alloc_lt (by simpa using hpp.lt), Heap.get_modify, if_pos ⟨rfl, hpp.lt⟩]
           refine ⟨?_, fun hf => Bool.noConfusion hf⟩
-          refine out_branch (kn := upd (fun _ => Node.empty) i _) (fps := upd (fun _ => []) i [b])
+          dsimp only
+          refine out_branch (kn := upd (fun _ => Node.empty) i ?K) (fps := upd (fun _ => []) i [b])
             (((hpp.fr.mono (sa_wr hfa)).trans (FR.modify p1 b _ hwb)).trans (FR.alloc _ _ _))
             (by simp) ?_ ?_ ?_ ?_ ?_ ?_ ?_ ?_
-          · simp only [Heap.alloc_snd, Heap.get_alloc_self]; rfl
-          · simp only [Heap.alloc_snd, Heap.get_alloc_self]; rfl
-          · simp only [Heap.alloc_snd, Heap.get_alloc_self]
-          · simp only [Heap.alloc_snd, Heap.get_alloc_self]; rfl
+          rotate_left
+          · simp only [Heap.alloc_snd, Heap.get_alloc_self]; try rfl
+          · simp only [Heap.alloc_snd, Heap.get_alloc_self]; try rfl
+          · simp only [Heap.alloc_snd, Heap.get_alloc_self]; try rfl
+          · simp only [Heap.alloc_snd, Heap.get_alloc_self]; try rfl
           · simp only [Heap.alloc_snd, Heap.get_alloc_self]; exact hcg
           · intro m
             simp only [Heap.alloc_snd, Heap.get_alloc_self]
-            refine kidTI_upd (fun m _ => kidTI_none H G _ g m) (kidTI_leaf (by simpa using Nat.lt_succ_of_lt hpp.lt)
-              ?_ ?_ ?_ ?_ ?_ ?_) m
+            refine kidTI_upd (fun m _ => kidTI_none H G _ g m) (kidTI_leaf ?_ ?_ ?_ ?_ ?_ ?_ ?_) m
+            · have := hpp.lt
+              simp only [Heap.size_alloc, Heap.size_modify]; omega
             · rw [hgetb]; exact hpp.isBranch.trans hb
             · rw [hgetb]
             · rw [hgetb]; exact (hpp.val rfl).trans hv
@@ -235,21 +240,125 @@ theorem insertInLeaf_tree (H : Bytes → Bytes) (hH : ∀ m, (H m).length = 32) 
             rw [List.mem_singleton.mp hx]
             exact ⟨hwb, Nat.ne_of_lt (show b < (p1.modify b _).size by simpa using hpp.lt),
               fun _ _ hm => (nomatch hm)⟩
-          · exact Or.inr (by show hp.size ≤ (p1.modify b _).size; rw [Heap.size_modify]; exact hpp.fr.size)
+          · exact Or.inr (Nat.le_trans hpp.fr.size (by simp))
       · simp only [if_neg e3]
         refine ⟨?_, fun hf => Bool.noConfusion hf⟩
+        dsimp only
         refine out_branch (kn := fun _ => Node.empty) (fps := fun _ => []) (FR.alloc _ _ _)
           (by simp) ?_ ?_ ?_ ?_ ?_ ?_ (Fam.nil _ _) (Or.inr (Nat.le_refl _))
-        · simp only [Heap.alloc_snd, Heap.get_alloc_self]; rfl
-        · simp only [Heap.alloc_snd, Heap.get_alloc_self]; rfl
-        · simp only [Heap.alloc_snd, Heap.get_alloc_self]
-        · simp only [Heap.alloc_snd, Heap.get_alloc_self]; rfl
+        · simp only [Heap.alloc_snd, Heap.get_alloc_self]; try rfl
+        · simp only [Heap.alloc_snd, Heap.get_alloc_self]; try rfl
+        · simp only [Heap.alloc_snd, Heap.get_alloc_self]; try rfl
+        · simp only [Heap.alloc_snd, Heap.get_alloc_self]; try rfl
         · simp only [Heap.alloc_snd, Heap.get_alloc_self]; exact hcg
         · intro m
           simp only [Heap.alloc_snd, Heap.get_alloc_self]
           exact kidTI_none H G _ g m
     · simp only [if_neg e2]
-      sorry
+      by_cases e3 : pk.length = lcpLen key pk
+      · simp only [if_pos e3]
+        rcases hdk : key.drop (lcpLen key pk) with _ | ⟨j, krest⟩
+        · exfalso
+          have := List.drop_eq_nil_iff.mp hdk
+          omega
+        · dsimp only
+          refine ⟨?_, fun hf => Bool.noConfusion hf⟩
+          dsimp only
+          refine out_branch (kn := upd (fun _ => Node.empty) j ?K3) (fps := upd (fun _ => []) j [hp.size])
+            ((FR.alloc _ _ _).trans (FR.alloc _ _ _))
+            (by simp) ?_ ?_ ?_ ?_ ?_ ?_ ?_ ?_
+          rotate_left
+          · simp only [Heap.alloc_snd, Heap.get_alloc_self]; try rfl
+          · simp only [Heap.alloc_snd, Heap.get_alloc_self]; try rfl
+          · simp only [Heap.alloc_snd, Heap.get_alloc_self]; exact hv
+          · simp only [Heap.alloc_snd, Heap.get_alloc_self]; try rfl
+          · simp only [Heap.alloc_snd, Heap.get_alloc_self]; exact hcg
+          · intro m
+            simp only [Heap.alloc_snd, Heap.get_alloc_self]
+            have hgl : ∀ n, (((hp.alloc (newLeaf c krest value)).1).alloc n).1.get hp.size =
+                newLeaf c krest value := fun n => by
+              rw [Heap.get_alloc_lt (by simp), Heap.get_alloc_self]
+            refine kidTI_upd (fun m _ => kidTI_none H G _ g m) (kidTI_leaf ?_ ?_ ?_ ?_ ?_ ?_ ?_) m
+            · simp only [Heap.size_alloc]; omega
+            · rw [hgl]; rfl
+            · rw [hgl]; rfl
+            · rw [hgl]; rfl
+            · intro m; rw [hgl]; rfl
+            · rw [hgl]; rfl
+            · rw [hgl]; exact hcg
+          · refine (Fam.nil _ _).set j [hp.size] (by simp) (fun x hx => ?_)
+            rw [List.mem_singleton.mp hx]
+            exact ⟨Or.inr (Nat.le_refl _), Nat.ne_of_lt (by simp), fun _ _ hm => (nomatch hm)⟩
+          · exact Or.inr (by simp)
+      · simp only [if_neg e3]
+        rcases hdr : pk.drop (lcpLen key pk) with _ | ⟨i, rest⟩
+        · exfalso
+          have := List.drop_eq_nil_iff.mp hdr
+          omega
+        rcases hdk : key.drop (lcpLen key pk) with _ | ⟨j, krest⟩
+        · exfalso
+          have := List.drop_eq_nil_iff.mp hdk
+          omega
+        dsimp only
+        have hpp := hprep true
+        generalize prepForMutation c true hp a = p at hpp ⊢
+        obtain ⟨p1, b⟩ := p
+        dsimp only at hpp ⊢
+        have hwb : Wr hp fp b := prepped_wr hpp hfa
+        have hgetb : ∀ n n', (((p1.modify b (fun x => { x with pk := rest })).alloc n).1.alloc n').1.get b =
+            { p1.get b with pk := rest } := fun n n' => by
+          rw [Heap.get_alloc_lt (by have := hpp.lt; simp only [Heap.size_alloc, Heap.size_modify]; omega),
+            Heap.get_alloc_lt (by simpa using hpp.lt), Heap.get_modify, if_pos ⟨rfl, hpp.lt⟩]
+        have hgl : ∀ n', (((p1.modify b (fun x => { x with pk := rest })).alloc (newLeaf c krest value)).1.alloc n').1.get
+            p1.size = newLeaf c krest value := fun n' => by
+          rw [Heap.get_alloc_lt (by simp)]
+          have : p1.size = (p1.modify b (fun x => { x with pk := rest })).size := by simp
+          rw [this, Heap.get_alloc_self]
+        refine ⟨?_, fun hf => Bool.noConfusion hf⟩
+        dsimp only
+        refine out_branch (kn := upd (upd (fun _ => Node.empty) i ?K41) j ?K42)
+          (fps := upd (upd (fun _ => []) i [b]) j [p1.size])
+          ((((hpp.fr.mono (sa_wr hfa)).trans (FR.modify p1 b _ hwb)).trans (FR.alloc _ _ _)).trans (FR.alloc _ _ _))
+          (by simp) ?_ ?_ ?_ ?_ ?_ ?_ ?_ ?_
+        rotate_left; rotate_left
+        · simp only [Heap.alloc_snd, Heap.get_alloc_self]; try rfl
+        · simp only [Heap.alloc_snd, Heap.get_alloc_self]; try rfl
+        · simp only [Heap.alloc_snd, Heap.get_alloc_self]; try rfl
+        · simp only [Heap.alloc_snd, Heap.get_alloc_self]; try rfl
+        · simp only [Heap.alloc_snd, Heap.get_alloc_self]; exact hcg
+        · intro m
+          simp only [Heap.alloc_snd, Heap.get_alloc_self, Heap.size_modify]
+          refine kidTI_upd (fun m _ => kidTI_upd (fun m _ => kidTI_none H G _ g m)
+            (kidTI_leaf ?_ ?_ ?_ ?_ ?_ ?_ ?_) m) (kidTI_leaf ?_ ?_ ?_ ?_ ?_ ?_ ?_) m
+          · have := hpp.lt
+            simp only [Heap.size_alloc, Heap.size_modify]; omega
+          · rw [hgetb]; exact hpp.isBranch.trans hb
+          · rw [hgetb]
+          · rw [hgetb]; exact (hpp.val rfl).trans hv
+          · intro m; rw [hgetb]; show (p1.get b).kids m = none; rw [hpp.kids]; exact hk m
+          · rw [hgetb]; exact hpp.dirty
+          · rw [hgetb]; exact hpp.gen
+          · simp only [Heap.size_alloc, Heap.size_modify]; omega
+          · rw [hgl]; rfl
+          · rw [hgl]; rfl
+          · rw [hgl]; rfl
+          · intro m; rw [hgl]; rfl
+          · rw [hgl]; rfl
+          · rw [hgl]; exact hcg
+        · refine ((Fam.nil _ _).set i [b] (by simp) (fun x hx => ?_)).set j [p1.size] (by simp) (fun x hx => ?_)
+          · rw [List.mem_singleton.mp hx]
+            refine ⟨hwb, Nat.ne_of_lt ?_, fun _ _ hm => (nomatch hm)⟩
+            have := hpp.lt
+            simp only [Heap.alloc_snd, Heap.size_alloc, Heap.size_modify]; omega
+          · rw [List.mem_singleton.mp hx]
+            refine ⟨Or.inr hpp.fr.size, Nat.ne_of_lt (by simp), fun m _ hm => ?_⟩
+            unfold upd at hm
+            split at hm
+            · rw [List.mem_singleton] at hm
+              have := hpp.lt
+              omega
+            · cases hm
+        · exact Or.inr (Nat.le_trans hpp.fr.size (by simp))
 
 end TrieHeap
 end Gossamer
